@@ -375,12 +375,15 @@ def mask (pre : Option Affine) : State → Elem → Bool
       | none => false
     | _, _ => false
   | .roi r, e =>
-    match e.x, e.y with
-    | .num (some x), .num (some y) =>
-      match r with
-      | .poly vs => pointsInsidePoly vs (applyPre pre ⟨x, y⟩)
-      | _ => roiContains r (applyPre pre ⟨x, y⟩)
-    | _, _ => false
+    match r, pre, e.x, e.y with
+    -- `RangeROI.contains(x, y)` only looks at its own coordinate (the other may be NaN); with a
+    -- pretransform a NaN input makes both transformed coordinates NaN
+    | .range .x lo hi, none, .num (some x), _ => decide (lo < x) && decide (x < hi)
+    | .range .y lo hi, none, _, .num (some y) => decide (lo < y) && decide (y < hi)
+    | .range _ _ _, none, _, _ => false
+    | .poly vs, _, .num (some x), .num (some y) => pointsInsidePoly vs (applyPre pre ⟨x, y⟩)
+    | _, _, .num (some x), .num (some y) => roiContains r (applyPre pre ⟨x, y⟩)
+    | _, _, _, _ => false
 
 /-! ## `roi_to_subset_state` -/
 
@@ -454,36 +457,37 @@ def plotPos (xc yc : Option (List Int)) (e : Elem) : Option Pt :=
   | _, _ => none
 
 /-- The point the region is compared with: `none` when the element has no plotted position
-(NaN).  A `RangeROI` applied without pretransform constrains its own axis only. -/
-def specPoint (r : Roi) (xc yc : Option (List Int)) (usePre : Bool) (pre : Option Affine)
-    (e : Elem) : Option Pt :=
-  match r, usePre with
-  | .range .x _ _, false => (plotCoord xc e.x).map fun x => ⟨x, 0⟩
-  | .range .y _ _, false => (plotCoord yc e.y).map fun y => ⟨0, y⟩
+(NaN).  A `RangeROI` constrains its own axis only: without a pretransform the other coordinate is
+not looked at (it may be missing); with a pretransform both are needed to compute the plotted
+coordinate (IEEE: any NaN input makes both outputs NaN). -/
+def specPoint (r : Roi) (xc yc : Option (List Int)) (pre : Option Affine) (e : Elem) : Option Pt :=
+  match r, pre with
+  | .range .x _ _, none => (plotCoord xc e.x).map fun x => ⟨x, 0⟩
+  | .range .y _ _, none => (plotCoord yc e.y).map fun y => ⟨0, y⟩
   | _, _ => (plotPos xc yc e).map (applyPre pre)
 
 /-- The element is selected iff its plotted position lies in the region (a categorical region
 contains the elements whose x label it lists). -/
-def specSelected (r : Roi) (xc yc : Option (List Int)) (usePre : Bool) (pre : Option Affine)
+def specSelected (r : Roi) (xc yc : Option (List Int)) (pre : Option Affine)
     (e : Elem) : Bool :=
   match r with
   | .categorical labels => match e.x with | .lab l => labels.contains l | _ => false
-  | _ => match specPoint r xc yc usePre pre e with
+  | _ => match specPoint r xc yc pre e with
     | some p => roiContains r p
     | none => false
 
 /-- Element in the boundary band (excluded from the comparison). -/
-def specNear (ε : Rat) (r : Roi) (xc yc : Option (List Int)) (usePre : Bool) (pre : Option Affine)
+def specNear (ε : Rat) (r : Roi) (xc yc : Option (List Int)) (pre : Option Affine)
     (e : Elem) : Bool :=
-  match specPoint r xc yc usePre pre e with
+  match specPoint r xc yc pre e with
   | some p => near ε r p
   | none => false
 
 /-- Spec verdict on a whole mask. -/
-def specMask (ε : Rat) (r : Roi) (xc yc : Option (List Int)) (usePre : Bool) (pre : Option Affine)
+def specMask (ε : Rat) (r : Roi) (xc yc : Option (List Int)) (pre : Option Affine)
     (es : List Elem) (m : List Bool) : Bool :=
   m.length == es.length &&
   (es.zip m).all fun em =>
-    specNear ε r xc yc usePre pre em.1 || (em.2 == specSelected r xc yc usePre pre em.1)
+    specNear ε r xc yc pre em.1 || (em.2 == specSelected r xc yc pre em.1)
 
 end GlueVerif.C09
